@@ -9,6 +9,8 @@ def classify(r):
     kind = r["fault"].split("/")[0]
     ctxt = "%s %s fault=%s fallback=%s cberr_at=%d: requested %s, downloads %s, callbacks %s, returned %s %s" % (
         v, r["layout"], r["fault"], r["fallback"], r["cberr_at"], r["req"], r["loads"], r["cbs"], r["ret"], r.get("retmsg", ""))
+    if v == "repo":
+        ctxt += "; stored copies [token, s=streamed pack/o=other pack, offset, length, damaged, pack unreadable] %s" % r["copies"]
     if r["panic"]:
         return "streampack/%s/panic" % v, r["panic"] + " :: " + ctxt
     req = {q[0]: q for q in r["req"]}
@@ -18,6 +20,11 @@ def classify(r):
 
     def infailed(q):
         return any(q[1] >= l[0] and q[1] + q[2] <= l[0] + l[1] for l in failed)
+    def must_deliver(tok):
+        cs = [c for c in r["copies"] if c[0] == tok]
+        return (any(c[1] == "o" and not c[4] and not c[5] for c in cs)
+                or (r["sfault"] != "packfail" and any(c[1] == "s" and not c[4] for c in cs))
+                or (r["sfault"] == "packfail" and not any(c[1] == "s" and infailed([c[0], c[2], c[3]]) for c in cs)))
     what = None
     if any(t not in req for t in toks):
         what = "callback-for-unrequested-blob"
@@ -28,6 +35,12 @@ def classify(r):
     else:
         for t, st in r["cbs"]:
             q = req[t]
+            if v == "repo":
+                if st == "err" and must_deliver(t):
+                    cs = [c for c in r["copies"] if c[0] == t]
+                    what = "no-fallback-to-other-copy" if (q[4] or infailed(q) or len(cs) > 1) else "intact-blob-reported-as-error"
+                    break
+                continue
             exp = ("ok" if (r["fallback"] and q[3]) else "err") if (q[4] or infailed(q)) else "ok"
             if st != exp:
                 what = "intact-blob-reported-as-error" if exp == "ok" and not (q[4] or infailed(q)) else ("no-fallback-to-other-copy" if exp == "ok" else "damaged-blob-delivered")
